@@ -43,6 +43,7 @@ func main() {
 	fams := flag.String("fams", allFams, "families: k h s l z b(itmap) p(f) j(son)")
 	pairs := flag.Bool("pairs", false, "generate the batchable-pair sweep instead of random logs")
 	hllprobe := flag.Int("hllprobe", 0, "probe: stored bytes of one HyperLogLog key after a flush over this many identical runs")
+	hllj := flag.Bool("hll", false, "generate the pure-PFADD logs with every checkpoint cut and every running-replica restore instead of random logs")
 	sweep := flag.Bool("sweep", false, "generate the one-key-name-several-types logs for the local-deletion expiry sweep instead of random logs")
 	compact := flag.Bool("compact", false, "generate the expired-then-touched logs run on rocksdb with and without a forced compaction instead of random logs")
 	partial := flag.Bool("partial", false, "generate the part-way failing writes sweep (every restore cut) instead of random logs")
@@ -108,6 +109,8 @@ func main() {
 		logs, vars = genPairs(*tier == "thorough")
 	} else if *edge {
 		logs, vars = genEdges()
+	} else if *hllj {
+		logs, vars = genHll()
 	} else if *sweep {
 		logs, vars = genSweep()
 	} else if *compact {
@@ -724,6 +727,46 @@ func genSweep() ([]*Log, map[string][]*Variant) {
 			return &Variant{ID: l.ID + ".v" + strconv.Itoa(k), Engine: eng, Part: partOne(m), Shift: len(shifts), Cut: -1, Expire: exp, Compact: -1, Rewind: -1}
 		}
 		vars[l.ID] = []*Variant{mkv(0, "pebble", -1), mkv(1, "pebble", m), mkv(2, "mem", m), mkv(3, "rocksdb", m)}
+	}
+	return logs, vars
+}
+
+// genHll: keys that only PFADD ever touches; a checkpoint + restore into a new store at EVERY cut, and a
+// running replica installing the checkpoint of every earlier position. The byte-level views of such keys
+// depend on flush times (open findings), their PFCOUNT after a final flush + restart does not: it must
+// be the same in every variant.
+func genHll() ([]*Log, map[string][]*Variant) {
+	var logs []*Log
+	vars := map[string][]*Variant{}
+	n := 0
+	for _, pol := range []string{"compact", "local"} {
+		for _, eng := range []string{"mem", "pebble"} {
+			n++
+			l := &Log{ID: "Y" + strconv.Itoa(n), Policy: pol}
+			cmds := [][]string{{"pfadd", "t:p", "a"}, {"set", "t:o", "1"}, {"pfadd", "t:p", "b", "c"}, {"pfadd", "t:q", "x", "y"},
+				{"pfadd", "t:p", "d"}, {"pfadd", "t:q", "y", "z"}, {"set", "t:o", "2"}}
+			for i, c := range cmds {
+				l.Reqs = append(l.Reqs, mkReq(c, int64(i+1)*sec))
+			}
+			m := len(l.Reqs)
+			logs = append(logs, l)
+			k := 0
+			mkv := func(cut, rew int) *Variant {
+				v := &Variant{ID: l.ID + ".v" + strconv.Itoa(k), Engine: eng, Part: partOne(m), Cut: cut, Expire: -1, Compact: -1, Rewind: rew, rewindSet: true}
+				k++
+				return v
+			}
+			vs := []*Variant{mkv(-1, -1)}
+			for c := 0; c <= m; c++ {
+				vs = append(vs, mkv(c, -1))
+			}
+			for c := 0; c <= m; c++ {
+				for w := c; w <= m; w += 2 {
+					vs = append(vs, mkv(c, w))
+				}
+			}
+			vars[l.ID] = vs
+		}
 	}
 	return logs, vars
 }
